@@ -218,7 +218,12 @@ def run_skrifa(chk, facts, cfg):
                        ok and has_err, key=f"mem|{b.path}|{t.callee.split('::')[-2]}", file=b.file, line=t.line, fn=b.path,
                        detail="a too-small caller buffer must surface as DrawError::InsufficientMemory")
     chk.floor("C02-e", "outline memory constructor call sites", n, 2)
-    al = chk.anchor("C02-e", "alloc_slice", facts.body("skrifa::outline::glyf::memory::alloc_slice"))
+    # the carver (today `alloc_slice`): the function of the memory module that splits the byte buffer and casts the front part
+    cands = [b for b in facts.all_bodies("skrifa") if b.path.startswith("skrifa::outline::glyf::memory::") and "{closure" not in b.path
+             and any(t.callee.endswith("::split_at_mut") for _, t in b.calls())
+             and any("bytemuck::" in t.callee and "cast_slice" in t.callee for _, t in b.calls())]
+    al = chk.anchor("C02-e", "the carver of the scratch-memory module (alloc_slice)",
+                    cands[0] if len(cands) == 1 else facts.body("skrifa::outline::glyf::memory::alloc_slice"))
     sp = [(bb, t) for bb, t in al.calls() if t.callee.endswith("::split_at_mut")]
     chk.anchor("C02-e", "split_at_mut in alloc_slice", sp)
     for bb, t in sp:
